@@ -55,10 +55,10 @@ type Call struct {
 // Fault makes the n-th (1-based, 0 = every) matching call fail with Err. Empty fields match anything.
 type Fault struct {
 	Actor, Verb, Kind, Name, Sub string
-	Nth                         int
-	Err                         string // Conflict | NotFound | Server | TooManyRequests
-	seen                        int
-	used                        bool
+	Nth                          int
+	Err                          string // Conflict | NotFound | Server | TooManyRequests
+	seen                         int
+	used                         bool
 }
 
 type World struct {
@@ -272,7 +272,7 @@ func (w *World) write(ctx context.Context, c Call, obj client.Object, grace int,
 	if err == nil {
 		err = do()
 	}
-	post := any("-")
+	post := trace.M{"exists": false}
 	gone := false
 	if err == nil && obj != nil {
 		if cur, ok := w.currentLocked(obj); ok {
@@ -519,7 +519,7 @@ func (w *World) EnvMutate(obj client.Object, what string, f func()) bool {
 	rv, _ := strconv.Atoi(obj.GetResourceVersion())
 	obj.SetResourceVersion(strconv.Itoa(rv + 1))
 	w.rawUpdate(obj)
-	post := any("-")
+	post := trace.M{"exists": false}
 	if c2, ok := w.currentLocked(obj); ok {
 		post = Abs(c2)
 	}
@@ -538,7 +538,7 @@ func (w *World) EnvRemove(obj client.Object, what string) bool {
 	if err := w.Raw.Delete(w.gvr(cur), cur.GetNamespace(), cur.GetName()); err != nil {
 		panic(err)
 	}
-	w.emitLocked(trace.M{"e": "Env", "what": what, "kind": kindOf(obj), "name": obj.GetName(), "post": "-"})
+	w.emitLocked(trace.M{"e": "Env", "what": what, "kind": kindOf(obj), "name": obj.GetName(), "post": trace.M{"exists": false}})
 	return true
 }
 
